@@ -249,7 +249,7 @@ def step (_ : Unit) (line : String) : Unit × String :=
       -- `print T1; print T2; …` on the console of the standard runtime (sio staging buffer 2048, IGNOREECERR, autoflush):
       -- each print is the value and then ORS (also after a failed value write), each a hawk_tio_writeuchars; the program exits at the first print that
       -- reports failure; when the run returns every stream gets a FLUSH whose failure makes the std handler discard what is
-      -- staged (std.c: hawk_sio_drain, by design, the failure is not reported: hawk_rtx_flushallios is void); closing then
+      -- staged (std.c: hawk_sio_drain, by design) and the run fail (hawk_rtx_flushallios / hawk_rtx_loop); closing then
       -- flushes three more times (hawk_sio_fini, hawk_tio_fini, detach_out)
       let cfg := mkCfg 2048 "i"
       let rec go (ts : List (List UInt8)) (i : Nat) (o : OutSt) : OutSt × Nat :=
@@ -264,8 +264,10 @@ def step (_ : Unit) (line : String) : Unit × String :=
       let (o, ec) := go ts 0 { script := sc }
       let r := flush o
       let o : OutSt := match r.2 with | none => { r.1 with buf := [] } | some _ => r.1
+      -- run.c: a run-end flush that fails makes hawk_rtx_loop fail (return NULL: -1 here), whatever the program's exit value was
+      let ecs := match r.2 with | none => "-1" | some _ => toString ec
       let o := (flush (flush (flush o).1).1).1
-      s!"ec={ec} calls={o.ncalls} sink={showSink o.sink}"
+      s!"ec={ecs} calls={o.ncalls} sink={showSink o.sink}"
     | _, _ => "bad-op"
   | _ => "bad-op")
 
